@@ -116,6 +116,25 @@ fn matches_names(f: &syn::ImplItemFn) -> Vec<String> {
     }).collect()
 }
 
+// resolve_function_exit: `match op { Operator::A {..} | Operator::B | .. => { builder.before_at(..); builder.inject_all(instr_func_on_exit); return } _ => {} }`
+fn exit_ops(repo: &str) -> Vec<String> {
+    let path = format!("{repo}/src/ir/module/mod.rs");
+    let src = std::fs::read_to_string(&path).unwrap_or_else(|_| crate::shape_changed!("{path} not readable"));
+    let file = syn::parse_file(&src).unwrap_or_else(|e| crate::shape_changed!("{path} does not parse: {e}"));
+    let f = file.items.iter().find_map(|it| match it { syn::Item::Fn(f) if f.sig.ident == "resolve_function_exit" => Some(f), _ => None })
+        .unwrap_or_else(|| crate::shape_changed!("fn resolve_function_exit not found"));
+    let m = f.block.stmts.iter().find_map(|s| match s { syn::Stmt::Expr(syn::Expr::Match(m), _) if toks(&m.expr) == "op" => Some(m), _ => None })
+        .unwrap_or_else(|| crate::shape_changed!("resolve_function_exit: no match on op"));
+    if m.arms.len() != 2 || toks(&m.arms[1].pat) != "_" { crate::shape_changed!("resolve_function_exit: match with {} arms", m.arms.len()); }
+    let body = toks(&m.arms[0].body);
+    if !(body.contains("builder . before_at (") && body.contains("builder . inject_all (instr_func_on_exit)") && body.contains("return")) { crate::shape_changed!("resolve_function_exit: the arm does not inject the exit code before the instruction"); }
+    toks(&m.arms[0].pat).split('|').filter(|a| !a.trim().is_empty()).map(|alt| {
+        let a = alt.trim();
+        let n = a.strip_prefix("Operator :: ").map(|x| x.strip_suffix("{ .. }").unwrap_or(x).trim().to_string());
+        match n { Some(x) if x.chars().all(|c| c.is_alphanumeric()) => x, _ => crate::shape_changed!("resolve_function_exit: alternative `{a}`") }
+    }).collect()
+}
+
 pub fn generate(repo: &str, out: &str) {
     let path = format!("{repo}/src/ir/types.rs");
     let src = std::fs::read_to_string(&path).unwrap_or_else(|_| crate::shape_changed!("{path} not readable"));
@@ -143,6 +162,7 @@ pub fn generate(repo: &str, out: &str) {
     if got != w { crate::shape_changed!("add_instr arms {:?}", got); }
     let bs = matches_names(find_fn(&file, "InstrumentationFlag", "is_block_style_op", 1));
     let br = matches_names(find_fn(&file, "InstrumentationFlag", "is_branching_op", 1));
+    let ex = exit_ops(repo);
 
     let mut s = String::new();
     writeln!(s, "(* GENERATED by /verif/translator (GenAddInstr) from InstrumentationFlag::add_instr / is_block_style_op / is_branching_op").unwrap();
@@ -155,5 +175,7 @@ pub fn generate(repo: &str, out: &str) {
     let lst = |v: &Vec<String>| v.iter().map(|x| format!("\"{x}\"%string")).collect::<Vec<_>>().join("; ");
     writeln!(s, "Definition gen_block_style_ops : list string := [{}].", lst(&bs)).unwrap();
     writeln!(s, "Definition gen_branching_ops : list string := [{}].", lst(&br)).unwrap();
+    writeln!(s, "(* resolve_function_exit (src/ir/module/mod.rs): the operators in front of which a copy of the exit code is injected *)").unwrap();
+    writeln!(s, "Definition gen_exit_ops : list string := [{}].", lst(&ex)).unwrap();
     std::fs::write(out, s).expect("write");
 }
